@@ -54,6 +54,7 @@ def run(report, db, tier):
     encryption_arm(report, db, M, P, fi, arms)
     compression_arm(report, db, M, fi, arms)
     switches_quiet(report, db, S, M, cg, fi, paths)
+    pair_registered(report, db, P)
     R2f = report.rule('R10.2f', 'a login starts unframed: _connect resets '
                       'the framing whatever the previous login on this '
                       'object negotiated')
@@ -423,6 +424,53 @@ def compression_arm(report, db, M, fi, arms):
                              'otherwise every following frame is mis-framed'
                              % {k: show(v) for k, v in sorted(
                                  stores.items())})
+
+
+def pair_registered(report, db, P, rid='R10.3p'):
+    """A plugin request can only be answered where it is decoded: the
+    request is in the clientbound login table of exactly the supported
+    versions whose serverbound login table has the response (siblings that
+    must agree on the boundary)."""
+    from ..fold import ClassVal
+    from ..protocol import Raises
+    R = report.rule(rid, 'plugin request and plugin response are registered '
+                    'for the same versions (the request is decoded wherever '
+                    'the client can answer it)')
+    CB = 'minecraft.networking.packets.clientbound.login'
+    SB = 'minecraft.networking.packets.serverbound.login'
+    req = ClassVal(db.get_class(CB, 'PluginRequestPacket'))
+    rsp = ClassVal(db.get_class(SB, 'PluginResponsePacket'))
+    only_req, only_rsp = [], []
+    n = 0
+    for v in P.supported:
+        tc = P.table('clientbound', 'login', v)
+        ts = P.table('serverbound', 'login', v)
+        if isinstance(tc, Raises) or isinstance(ts, Raises):
+            continue
+        n += 1
+        a, b = req in tc, rsp in ts
+        if a and not b:
+            only_req.append(v)
+        elif b and not a:
+            only_rsp.append(v)
+        else:
+            report.ok(R)
+    tf = P.table_func('clientbound', 'login')
+    if only_rsp:
+        report.violation(
+            R, 'pair:request-missing', tf.path, tf.node, tf.qualname,
+            'protocol(s) %s register the plugin response but not the plugin '
+            'request: the server\'s request is read as an unknown packet and '
+            'never answered, so the login never completes'
+            % [P.vname(v) for v in only_rsp[:4]])
+    if only_req:
+        tf2 = P.table_func('serverbound', 'login')
+        report.violation(
+            R, 'pair:response-missing', tf2.path, tf2.node, tf2.qualname,
+            'protocol(s) %s register the plugin request but not the '
+            'response the reaction writes' % [P.vname(v)
+                                             for v in only_req[:4]])
+    report.floor('login tables compared', n, 200)
 
 
 def switches_quiet(report, db, S, M, cg, fi, paths, rid='R10.2q'):
